@@ -134,12 +134,17 @@ def _unify(a, b, s):
     return False
 
 
-def _walk_star(t, s):
-    t = _walk(t, s)
+def _walk_star(t, s, seen=frozenset()):
+    # a reported constraint may be cyclic on a defective tree (x != [x, 1]): cut the cycle instead of recursing for ever
+    while t[0] == "v" and t[1] in s:
+        if t[1] in seen:
+            return ("a", "<cyclic>")
+        seen = seen | {t[1]}
+        t = s[t[1]]
     if t[0] == "cons":
-        return ("cons", _walk_star(t[1], s), _walk_star(t[2], s))
+        return ("cons", _walk_star(t[1], s, seen), _walk_star(t[2], s, seen))
     if t[0] == "comp":
-        return ("comp", t[1], tuple(_walk_star(x, s) for x in t[2]))
+        return ("comp", t[1], tuple(_walk_star(x, s, seen) for x in t[2]))
     return t
 
 
